@@ -54,6 +54,29 @@ pub struct Snap {
     pub verify_queue_len: u64,
     /// the dump listed the same id twice (cannot happen with a unique index; kept for the check)
     pub duplicate_ids: bool,
+    /// the orphan pool (sub-check `remote`)
+    pub orphans: BTreeMap<Id, Orph>,
+    /// the orphan pool's `by_out_point` index
+    pub orphan_index: BTreeMap<CellKey, BTreeSet<Id>>,
+    pub orphan_len: u64,
+    /// the verify queue in pop order: (id, remote = (declared cycles, peer))
+    pub queue: Vec<(Id, Option<(u64, usize)>)>,
+    /// activities in flight (verify workers, recover-back tasks, the reorg task)
+    pub inflight: u64,
+    /// the conflicts cache (ids)
+    pub conflicts_cache: BTreeSet<Id>,
+}
+
+#[derive(Clone, Debug)]
+pub struct Orph {
+    pub id: Id,
+    pub hash: [u8; 32],
+    pub peer: usize,
+    pub declared: u64,
+    pub expires_at: u64,
+    pub inputs: Vec<CellKey>,
+    pub deps: Vec<CellKey>,
+    pub tx: TransactionView,
 }
 
 pub fn snap_of(d: &VerifDump) -> Snap {
@@ -106,6 +129,29 @@ pub fn snap_of(d: &VerifDump) -> Snap {
     s.counts = [d.pending_count, d.gap_count, d.proposed_count];
     s.tip_hash = h32(&d.tip_hash);
     s.verify_queue_len = d.verify_queue_len;
+    for o in &d.orphans {
+        let id = pid(&o.id);
+        s.orphans.insert(
+            id,
+            Orph {
+                id,
+                hash: h32(&o.tx.hash()),
+                peer: o.peer,
+                declared: o.declared_cycles,
+                expires_at: o.expires_at,
+                inputs: o.tx.inputs().into_iter().map(|i| cell_key(&i.previous_output())).collect(),
+                deps: o.tx.cell_deps().into_iter().map(|c| cell_key(&c.out_point())).collect(),
+                tx: o.tx.clone(),
+            },
+        );
+    }
+    for (o, ids) in &d.orphan_by_out_point {
+        s.orphan_index.insert(cell_key(o), ids.iter().map(pid).collect());
+    }
+    s.orphan_len = d.orphan_len;
+    s.queue = d.verify_queue.iter().map(|(id, r, _, _)| (pid(id), *r)).collect();
+    s.inflight = d.inflight;
+    s.conflicts_cache = d.conflicts_cache.iter().map(|(id, _)| pid(id)).collect();
     s
 }
 
